@@ -281,6 +281,9 @@ def check(repo: Repo, run: Run) -> None:
     # inner event pipeline
     inner_src, inner = pipeline.parse(src.a[1][0])
     ok_in = (inner_src.op == "call" and inner_src.a[0].op == "attr" and inner_src.a[0].a[1] == "parse")
+    if not ok_in and inner_src.op == "call" and sym.root_of(inner_src.a[0]).op == "new" \
+            and sym.root_of(inner_src.a[0]).a[0] == "pykdebugparser.kd_buf_parser.KdBufParser":
+        ok_in = True        # KdBufParser as a dataclass: the interpreter stands inside parse(), at `versions[magic](stream)`
     if not ok_in and inner_src.op == "call" and ((inner_src.a[0].op == "attr" and inner_src.a[0].a[0] == sym.param("self")
                                                   and inner_src.a[0].a[1] in ci.methods) or inner_src.a[0].op == "func"):
         raise AnalysisError(f"traces(): the events reach the trace decoder through {sym.pretty(inner_src.a[0])[:60]}(...), a stage that "
@@ -314,6 +317,17 @@ def check(repo: Repo, run: Run) -> None:
                    f"the thread filter is applied when {sorted(map(sym.pretty, cj))}, not iff filter_tid is not None",
                    nontrivial=False)
         else:
+            # a predicate that also asks whether a filter list is set at all (`if not self.filter_class: ...`, `xs or ()` ahead
+            # of the membership tests - None-tolerant forms): a shape of the class stage these rules do not describe
+            def _truth_use(t, under_in=False):
+                if t.op == "cmp" and t.a[0] in ("in", "not in"):
+                    return _truth_use(t.a[1])      # (inside the collection of a membership test the lists are combined, not tested)
+                if t.op == "attr" and t.a[0] == SELF and t.a[1] in ("filter_class", "filter_subclass"):
+                    return True
+                return any(_truth_use(c_) for c_ in sym.children(t))
+            if _truth_use(nb):
+                raise AnalysisError("traces(): the class stage also tests whether a filter list is set (a None-tolerant form): which "
+                                    "classes it lets through is not decided")
             items = nb.a[1] if nb.op == "bool" and nb.a[0] == "or" else (nb,)
             cls_l = T("bin", (">>", A(X, "eventid"), const(24)))
             sub_l = T("bin", (">>", A(X, "eventid"), const(16)))
